@@ -6,16 +6,33 @@ package corr
 //
 // ops (pacing):  new rate=<bit/s> ivl=<µs> | bind s=<k> | w s=<k> ssrc= seq= cc= xp= xl= pl= [nw=1]
 //                | setrate r=<bit/s> | adv us=<µs> | close
+//                | hook after=<k> r=<bit/s>   (pacing only) the NEXT WRITER changes the rate: from inside its k-th
+//                  hand-over from now on (counted over all streams) it calls InterceptorFactory.SetRate(r) — re-entrantly,
+//                  on the pacer's own goroutine, possibly while one tick is still draining a backlog.  Prints
+//                  `hook t=<µs> r=<r>` after the `d` line of that hand-over.
 // ops (leaky):   new rate=<bit/s> | bind s=<ssrc> | w ssrc= seq= cc= xp= xl= pl= [nw=1]
 //                | setrate r= | adv us= | close
 // observables:   `w n=<n> err=<class>` for every Write (after Close: `w post-close`, the select in
 //                the pacing interceptor picks at random between accepting and errPacerClosed),
 //                `d t=<µs since case start> s=<stream> seq=<seq> h=<header digest> p=<payload digest>`
 //                for every packet that reaches a bottom writer, in order.
+//
+// The rate bound, evaluated on the REAL trace of every pacing case (c17Env): C17 says "cumulative bits released never
+// exceed burst + rate x elapsed".  Across rate changes the bound is piecewise: for every regime c — the start of the
+// case and every SetRate, at time t_c, to rate r_c, with burst b_c = burst(r_c, interval) = max(12000, r_c/(1000/ms)) —
+// and every later instant t,
+//
+//	bits handed to the next writers in (t_c, t]  <=  b_c + SUM over the regimes j from c on of r_j x (time spent in j up to t)
+//
+// (a hand-over from inside which SetRate is called counts for the regimes before the change only).  This is
+// `envelope_run` of Props/C17.lean started at the state a SetRate leaves (tokens <= b_c as seen by every later
+// operation: `advance_cap`); the theorem is about the exact bucket, the real one computes in binary64, so the check
+// allows 1 bit.  A violation prints `ENVELOPE-VIOLATED …`, a line no model prints.
 
 import (
 	"errors"
 	"fmt"
+	"math/big"
 	"sort"
 	"strings"
 	"sync"
@@ -171,9 +188,88 @@ type c17Rec struct {
 	start time.Time
 	lines []string
 	ents  []c17Ent // the same deliveries, structured (used by the concurrent-writer block)
+	// after (pacing only) is called, still inside the next writer, for every hand-over: the rate bound of the case and
+	// the armed hook; the lines it returns follow the `d` line
+	after func(bytes int) []string
 	// which error a failing next-writer call returns (per case), and how many have failed
 	errKinds []string
 	nFail    int64
+}
+
+// c17Regime: one start point of the piecewise rate bound.
+type c17Regime struct {
+	t0  time.Duration // since the start of the case
+	acc *big.Int      // burst + rate x elapsed booked up to c17Env.tcur, in 1e-9 bit
+	rel int64         // bits handed over since t0
+}
+
+// c17Env evaluates the rate bound on the real trace and carries the armed hook.
+type c17Env struct {
+	start     time.Time
+	ivlUs     int
+	rate      int
+	tcur      time.Time
+	regs      []*c17Regime
+	fac       *pacing.InterceptorFactory
+	hookAfter int // > 0: armed
+	hookRate  int
+}
+
+var c17Giga = big.NewInt(1_000_000_000)
+
+// c17Burst is burst(rate, interval) of pkg/pacing.
+func c17Burst(rate, ivlUs int) int {
+	ms := ivlUs / 1000
+	if ms == 0 {
+		ms = 1
+	}
+	return max(8*1500, int(float64(rate)/float64(1000/ms)))
+}
+
+func (e *c17Env) book(now time.Time) {
+	d := new(big.Int).Mul(big.NewInt(int64(e.rate)), big.NewInt(now.Sub(e.tcur).Nanoseconds()))
+	for _, g := range e.regs {
+		g.acc.Add(g.acc, d)
+	}
+	e.tcur = now
+}
+
+// change: the rate is `rate` from `now` on (also the start of the case).
+func (e *c17Env) change(now time.Time, rate int) {
+	if e.regs != nil {
+		e.book(now)
+	}
+	e.tcur, e.rate = now, rate
+	b := new(big.Int).Mul(big.NewInt(int64(c17Burst(rate, e.ivlUs))), c17Giga)
+	e.regs = append(e.regs, &c17Regime{t0: now.Sub(e.start), acc: b})
+}
+
+// handOver: `bytes` reach a next writer now.
+func (e *c17Env) handOver(bytes int) (lines []string) {
+	if e.regs == nil {
+		return nil
+	}
+	now := time.Now()
+	e.book(now)
+	for _, g := range e.regs {
+		g.rel += 8 * int64(bytes)
+		lhs := new(big.Int).Mul(big.NewInt(g.rel), c17Giga)
+		rhs := new(big.Int).Add(g.acc, c17Giga) // 1 bit for the binary64 arithmetic of the real bucket
+		if lhs.Cmp(rhs) > 0 {
+			lines = append(lines, fmt.Sprintf("ENVELOPE-VIOLATED t=%d since=%d released=%d bound=%s", now.Sub(e.start).Microseconds(),
+				g.t0.Microseconds(), g.rel, new(big.Int).Div(g.acc, c17Giga)))
+			break
+		}
+	}
+	if e.hookAfter > 0 {
+		e.hookAfter--
+		if e.hookAfter == 0 {
+			e.fac.SetRate("x", e.hookRate) // re-entrant: we are inside the pacer's call of the next writer
+			e.change(now, e.hookRate)
+			lines = append(lines, fmt.Sprintf("hook t=%d r=%d", now.Sub(e.start).Microseconds(), e.hookRate))
+		}
+	}
+	return lines
 }
 
 func (r *c17Rec) writer(stream int) interceptor.RTPWriter { return r.writerG(stream, 0, nil) }
@@ -197,6 +293,9 @@ func (r *c17Rec) writerG(stream, gen int, fail func() bool) interceptor.RTPWrite
 		line := fmt.Sprintf("%s t=%d %s", tag, time.Since(r.start).Microseconds(), body)
 		r.lines = append(r.lines, line)
 		r.ents = append(r.ents, c17Ent{stream: stream, seq: int(h.SequenceNumber), line: line, body: body})
+		if r.after != nil {
+			r.lines = append(r.lines, r.after(h.MarshalSize()+len(p))...)
+		}
 		if failed {
 			// which error: one of the well-known values a transport fails with, chosen per case (ambient_test.go); a
 			// pacer keeps releasing the packets behind the failed one whatever the value
@@ -267,6 +366,8 @@ func c17NatOK(m map[string]string, k string, max int) (v int, ok bool) {
 func runPacing(t *testing.T, ops []string, o *Out) {
 	synctest.Test(t, func(t *testing.T) {
 		rec := &c17Rec{start: time.Now(), errKinds: c17ErrKinds(ops)}
+		env := &c17Env{start: rec.start}
+		rec.after = env.handOver
 		var fac *pacing.InterceptorFactory
 		var ic interceptor.Interceptor
 		writers := map[int]interceptor.RTPWriter{}
@@ -300,6 +401,7 @@ func runPacing(t *testing.T, ops []string, o *Out) {
 					continue
 				}
 				cw = map[int][]cwW{}
+				env.hookAfter = 0 // which hand-over is the k-th depends on the schedule inside the block
 			case "cww":
 				st, ok := c17NatOK(m, "s", 1000)
 				sh, ok2 := c17ParseShape(m)
@@ -361,6 +463,11 @@ func runPacing(t *testing.T, ops []string, o *Out) {
 				}
 				rec.mu.Lock()
 				ents := rec.ents
+				for _, l := range rec.lines {
+					if strings.HasPrefix(l, "ENVELOPE-VIOLATED") {
+						o.P("%s", l)
+					}
+				}
 				rec.ents, rec.lines = nil, nil
 				rec.mu.Unlock()
 				var blk []c17Ent
@@ -409,6 +516,8 @@ func runPacing(t *testing.T, ops []string, o *Out) {
 				if err != nil {
 					panic(err)
 				}
+				env.fac, env.ivlUs = fac, iv
+				env.change(time.Now(), r)
 				synctest.Wait()
 			case "bind":
 				s, ok := c17NatOK(m, "s", 1000)
@@ -448,6 +557,19 @@ func runPacing(t *testing.T, ops []string, o *Out) {
 					continue
 				}
 				fac.SetRate("x", r)
+				rec.mu.Lock()
+				env.change(time.Now(), r)
+				rec.mu.Unlock()
+			case "hook":
+				k, ok := c17NatOK(m, "after", 100_000)
+				r, ok2 := c17NatOK(m, "r", 2_000_000_000)
+				if !ok || !ok2 || k < 1 || fac == nil || closed {
+					o.P("bad-op")
+					continue
+				}
+				rec.mu.Lock()
+				env.hookAfter, env.hookRate = k, r
+				rec.mu.Unlock()
 			case "adv":
 				d, ok := c17NatOK(m, "us", 600_000_000)
 				if !ok {
@@ -747,8 +869,11 @@ func c17Rate(r *Rng) int {
 
 func genPacing(r *Rng, tier string, idx int) Case {
 	classes := []string{"steady", "burst", "ratechange", "multistream", "shapes", "lowrate", "highrate",
-		"oversize", "closed", "intervals", "edge", "concurrent", "rebind"}
+		"oversize", "closed", "intervals", "edge", "concurrent", "rebind", "rehook"}
 	cl := classes[idx%len(classes)]
+	if cl == "rehook" {
+		return genPacingRehook(r)
+	}
 	if cl == "rebind" {
 		return genPacingRebind(r)
 	}
@@ -858,6 +983,84 @@ func genPacing(r *Rng, tier string, idx int) Case {
 	}
 	adv(400)
 	return Case{Class: cl, Ops: ops}
+}
+
+// genPacingRehook: the rate changes (InterceptorFactory.SetRate, up and down by factors of 10 .. 10000) not only between
+// ticks but RE-ENTRANTLY, from inside the next writer's k-th hand-over, while one tick is draining a backlog — with
+// an old burst (rate/200 at 5 ms: up to millions of bits) much larger than the new one (12000 bits).  Whoever may call
+// SetRate may call it from there (a congestion controller that reacts to what it sees leaving): the bits released
+// after the change are bounded by the NEW burst plus the new rate times the time since (head of the file).
+func genPacingRehook(r *Rng) Case {
+	ivl := r.Pick(5000, 5000, 5000, 10_000, 1000, 20_000)
+	hi := func() int {
+		return r.Pick(20_000_000, 100_000_000, 100_000_000, 400_000_000, 1_000_000_000, r.Range(20_000_000, 500_000_000))
+	}
+	lo := func(x int) int { return r.Pick(1_000_000, 100_000, 2_400_000, 10_000, x/10, x/100, x/1000, 0) }
+	rate := hi()
+	if r.Chance(1, 5) {
+		rate = lo(rate) + 1000 // starts low: the first change goes up
+	}
+	ops := []string{fmt.Sprintf("new rate=%d ivl=%d", rate, ivl)}
+	ns := r.Pick(1, 1, 2, 3)
+	seq := make([]int, ns)
+	for s := 0; s < ns; s++ {
+		ops = append(ops, fmt.Sprintf("bind s=%d", s))
+		seq[s] = r.Pick(0, 65530, r.Intn(65536))
+	}
+	queued := 0
+	write := func(n int) {
+		for i := 0; i < n; i++ {
+			s := r.Intn(ns)
+			cc, xp, xl := r.Pick(0, 0, 0, 2), 0, []int(nil)
+			if r.Chance(1, 6) {
+				xp, xl = 1, []int{r.Range(1, 16)}
+			}
+			pl := r.Pick(1200, 1200, 1000, r.Range(200, 1200))
+			ops = append(ops, c17WriteOp(s, true, 1000+s, seq[s], cc, xp, xl, pl, r.Chance(1, 2)))
+			seq[s]++
+		}
+		queued += n
+	}
+	adv := func(ticks int) {
+		ops = append(ops, fmt.Sprintf("adv us=%d", ticks*ivl+r.Pick(0, 0, 1, ivl/2, ivl-1)))
+	}
+	for round, rounds := 0, r.Range(2, 4); round < rounds; round++ {
+		// a backlog of about one (old) burst, often more
+		n := c17Burst(rate, ivl)/9700 + r.Range(-3, 12)
+		n = min(max(n, 4), 130)
+		write(n)
+		down := rate >= 10_000_000
+		nr := hi()
+		if down {
+			nr = lo(rate)
+		}
+		k := r.Range(1, n-1) // fires while the tick is draining the backlog
+		if r.Chance(1, 6) {
+			k = n + r.Range(0, 5) // fires later: not in this backlog
+		}
+		if r.Chance(1, 8) {
+			ops = append(ops, fmt.Sprintf("setrate r=%d", nr)) // an ordinary change between ticks, for comparison
+		} else {
+			ops = append(ops, fmt.Sprintf("hook after=%d r=%d", k, nr))
+		}
+		adv(r.Pick(1, 1, 2, 3, 8))
+		rate = nr
+		if r.Chance(1, 2) {
+			write(r.Range(1, 20))
+			adv(r.Pick(1, 2, 10, 40))
+		}
+		if r.Chance(1, 3) { // a second change while the rest of the backlog trickles out at the low rate
+			nr = r.Pick(hi(), hi(), lo(hi()))
+			ops = append(ops, fmt.Sprintf("hook after=%d r=%d", r.Range(1, 4), nr))
+			adv(r.Pick(2, 10, 60))
+			rate = nr
+		}
+	}
+	adv(r.Pick(20, 200, 400))
+	if r.Chance(1, 3) {
+		ops = append(ops, "close")
+	}
+	return Case{Class: "rehook", Ops: ops}
 }
 
 // genPacingConcurrent: 2-4 real goroutines, one per stream, write without any synctest.Wait between
